@@ -90,6 +90,7 @@ instance {K : Type} [Wt K] : Wt (Expc K) where
     | .arr #[a, b] => do pure ⟨← Wt.ofJson a, ← Wt.ofJson b⟩
     | j => throw s!"bad pair weight {j}"
   toJson e := .arr #[Wt.toJson e.p, Wt.toJson e.r]
+  bits e := max (Wt.bits e.p) (Wt.bits e.r)
 
 def getField (j : Json) (k : String) : E Json :=
   match j.getObjVal? k with
